@@ -217,3 +217,493 @@ mod c14_circ {
         run_suite("c14_circ", generate, exec);
     }
 }
+
+// ------------------------------------------------------------------------------------------------
+// C14 (b): OrderingSender at poll granularity.   Request:  c14.sender <cap> <ws> <rs> <op,op,…>
+//   ops: s<t>.<i>.<hex> = poll `send(i, msg)` with waker t | c<t>.<i> = poll `close(i)` |
+//        t<t> = `take_next` with waker t
+//   response item per poll: `<res>|<woken>`; <res> = R | P | N | =<hex>; <woken> = ids woken during
+//   this poll in order (`.`-separated, `-` = none); the trace ends with `panic:<tag>`.
+// ------------------------------------------------------------------------------------------------
+pub mod c14_wakers {
+    use std::{
+        sync::{Arc, Mutex},
+        task::{Wake, Waker},
+    };
+
+    /// A waker that appends its id to a shared log when woken.
+    pub struct LogWaker {
+        pub id: usize,
+        pub log: Arc<Mutex<Vec<usize>>>,
+    }
+
+    impl Wake for LogWaker {
+        fn wake(self: Arc<Self>) {
+            self.log.lock().unwrap().push(self.id);
+        }
+        fn wake_by_ref(self: &Arc<Self>) {
+            self.log.lock().unwrap().push(self.id);
+        }
+    }
+
+    pub fn waker(id: usize, log: &Arc<Mutex<Vec<usize>>>) -> Waker {
+        Waker::from(Arc::new(LogWaker { id, log: Arc::clone(log) }))
+    }
+
+    pub fn drain(log: &Arc<Mutex<Vec<usize>>>) -> String {
+        let v: Vec<usize> = std::mem::take(&mut *log.lock().unwrap());
+        if v.is_empty() {
+            "-".into()
+        } else {
+            v.iter().map(|x| x.to_string()).collect::<Vec<_>>().join(".")
+        }
+    }
+}
+
+pub mod c14_msg {
+    use std::convert::Infallible;
+
+    use generic_array::{ArrayLength, GenericArray};
+
+    use crate::ff::Serializable;
+
+    /// A message of `N` arbitrary bytes (never fails to deserialize).
+    #[derive(Debug, Clone, PartialEq, Eq)]
+    pub struct VMsg<N: ArrayLength>(pub GenericArray<u8, N>);
+
+    impl<N: ArrayLength> VMsg<N> {
+        pub fn from_slice(b: &[u8]) -> Self {
+            Self(GenericArray::try_from_iter(b.iter().copied()).expect("harness: message length"))
+        }
+    }
+
+    impl<N: ArrayLength> Serializable for VMsg<N> {
+        type Size = N;
+        type DeserializationError = Infallible;
+
+        fn serialize(&self, buf: &mut GenericArray<u8, Self::Size>) {
+            buf.copy_from_slice(&self.0);
+        }
+
+        fn deserialize(buf: &GenericArray<u8, Self::Size>) -> Result<Self, Self::DeserializationError> {
+            Ok(Self(buf.clone()))
+        }
+    }
+}
+
+mod c14_sender {
+    use std::{
+        future::Future,
+        num::NonZeroUsize,
+        pin::pin,
+        sync::{Arc, Mutex},
+        task::{Context, Poll},
+    };
+
+    use typenum::{U1, U2, U3, U4, U5, U6, U7, U8};
+
+    use super::{
+        super::OrderingSender,
+        c14_msg::VMsg,
+        c14_wakers::{drain, waker},
+    };
+    use crate::ipa_verif::proto::*;
+
+    fn tag(msg: &str) -> String {
+        const TAGS: &[&str] = &[
+            "attempt to write/close at index",
+            "writing on a closed stream",
+            "Already closed",
+            "Expect to keep messages of size",
+            "must all be greater than zero",
+            "write size must divide capacity",
+            "write size must divide read_size",
+        ];
+        for t in TAGS {
+            if msg.contains(t) {
+                return format!("panic:{t}");
+            }
+        }
+        msg.to_string()
+    }
+
+    fn poll_send(s: &OrderingSender, i: usize, m: &[u8], cx: &mut Context<'_>) -> Poll<()> {
+        macro_rules! go {
+            ($n:ty) => {{
+                let msg = VMsg::<$n>::from_slice(m);
+                let fut = s.send::<VMsg<$n>, _>(i, msg);
+                pin!(fut).poll(cx)
+            }};
+        }
+        match m.len() {
+            1 => go!(U1),
+            2 => go!(U2),
+            3 => go!(U3),
+            4 => go!(U4),
+            5 => go!(U5),
+            6 => go!(U6),
+            7 => go!(U7),
+            8 => go!(U8),
+            n => panic!("harness: unsupported message size {n}"),
+        }
+    }
+
+    pub fn exec(req: &str) -> String {
+        let t: Vec<&str> = req.split(' ').collect();
+        assert_eq!(t[0], "c14.sender");
+        let nz = |s: &str| NonZeroUsize::new(s.parse::<usize>().unwrap());
+        let (Some(cap), Some(ws), Some(rs)) = (nz(t[1]), nz(t[2]), nz(t[3])) else {
+            return "panic:must all be greater than zero".into(); // NonZeroUsize: not constructible
+        };
+        let sender = match guarded(|| OrderingSender::new(cap, ws, rs)) {
+            Ok(s) => s,
+            Err(p) => return tag(&p),
+        };
+        let log = Arc::new(Mutex::new(Vec::new()));
+        let mut out: Vec<String> = vec![];
+        if t[4] != "-" {
+            for op in t[4].split(',') {
+                let f: Vec<&str> = op[1..].split('.').collect();
+                let w = waker(f[0].parse().unwrap(), &log);
+                let mut cx = Context::from_waker(&w);
+                let r = match op.as_bytes()[0] {
+                    b's' => {
+                        let m = unhex(if f[2].is_empty() { "-" } else { f[2] });
+                        guarded(|| match poll_send(&sender, f[1].parse().unwrap(), &m, &mut cx) {
+                            Poll::Ready(()) => "R".to_string(),
+                            Poll::Pending => "P".to_string(),
+                        })
+                    }
+                    b'c' => guarded(|| {
+                        let fut = sender.close(f[1].parse().unwrap());
+                        match pin!(fut).poll(&mut cx) {
+                            Poll::Ready(()) => "R".to_string(),
+                            Poll::Pending => "P".to_string(),
+                        }
+                    }),
+                    b't' => guarded(|| match sender.take_next(&cx) {
+                        Poll::Ready(Some(v)) => format!("={}", hex(&v)),
+                        Poll::Ready(None) => "N".to_string(),
+                        Poll::Pending => "P".to_string(),
+                    }),
+                    _ => panic!("harness: bad op {op}"),
+                };
+                match r {
+                    Ok(s) => out.push(format!("{s}|{}", drain(&log))),
+                    Err(p) => {
+                        out.push(tag(&p));
+                        break;
+                    }
+                }
+            }
+        }
+        if out.is_empty() { "-".into() } else { out.join(";") }
+    }
+
+    // ---- generator -----------------------------------------------------------------------------
+    /// Generator-side prediction of Ready/Pending (only to know which tasks are still unfinished).
+    #[derive(Clone)]
+    struct Abs {
+        cap: usize,
+        ws: usize,
+        rs: usize,
+        next: usize,
+        len: usize,
+        closed: bool,
+    }
+
+    #[derive(Clone, Copy, PartialEq)]
+    enum Pred {
+        Ready,
+        Pending,
+        Panic,
+    }
+
+    impl Abs {
+        fn send(&mut self, i: usize, n: usize) -> Pred {
+            if i < self.next {
+                Pred::Panic
+            } else if i > self.next {
+                Pred::Pending
+            } else if self.closed {
+                Pred::Panic
+            } else if self.cap - self.len < self.ws {
+                Pred::Pending
+            } else if n != self.ws {
+                Pred::Panic
+            } else {
+                self.len += self.ws;
+                self.next += 1;
+                Pred::Ready
+            }
+        }
+        fn close(&mut self, i: usize) -> Pred {
+            if i < self.next {
+                Pred::Panic
+            } else if i > self.next {
+                Pred::Pending
+            } else if self.closed {
+                Pred::Panic
+            } else {
+                self.closed = true;
+                self.next += 1;
+                Pred::Ready
+            }
+        }
+        /// true if the stream is finished (Ready(None))
+        fn take(&mut self) -> bool {
+            if (self.closed && self.len > 0) || self.len >= self.rs {
+                self.len -= self.rs.min(self.len);
+                false
+            } else {
+                self.closed
+            }
+        }
+    }
+
+    fn msg_for(i: usize, ws: usize) -> String {
+        hex(&(0..ws).map(|k| ((i * 7 + k * 3 + 1) % 256) as u8).collect::<Vec<u8>>())
+    }
+
+    /// A task: writer of index i (`Some(i)`, waker 10+i) or the closer (`None`, waker 50).
+    fn poll_task(a: &mut Abs, ops: &mut Vec<String>, task: Option<usize>, n: usize) -> Pred {
+        match task {
+            Some(i) => {
+                ops.push(format!("s{}.{}.{}", 10 + i, i, msg_for(i, a.ws)));
+                a.send(i, a.ws)
+            }
+            None => {
+                ops.push(format!("c50.{n}"));
+                a.close(n)
+            }
+        }
+    }
+
+    /// n writers + closer: first polls in the order `perm` (n = closer), the reader polled every
+    /// `every` polls; then rounds over the unfinished tasks (ascending or descending) with a reader
+    /// poll in between, until everything is done and the stream is finished.
+    fn schedule(cap: usize, ws: usize, rs: usize, n: usize, perm: &[usize], every: usize, desc: bool) -> String {
+        let mut a = Abs { cap, ws, rs, next: 0, len: 0, closed: false };
+        let mut ops = vec![];
+        let mut done = vec![false; n + 1];
+        let mut finished = false;
+        let mut k = 0;
+        for &p in perm {
+            let r = poll_task(&mut a, &mut ops, if p == n { None } else { Some(p) }, n);
+            done[p] = r == Pred::Ready;
+            k += 1;
+            if every > 0 && k % every == 0 {
+                ops.push("t99".into());
+                finished = a.take();
+            }
+        }
+        let mut rounds = 0;
+        while (!finished || done.iter().any(|d| !d)) && rounds < 4 * (n + 2) {
+            rounds += 1;
+            let mut order: Vec<usize> = (0..=n).filter(|&p| !done[p]).collect();
+            if desc {
+                order.reverse();
+            }
+            for p in order {
+                let r = poll_task(&mut a, &mut ops, if p == n { None } else { Some(p) }, n);
+                done[p] = r == Pred::Ready;
+            }
+            ops.push("t99".into());
+            finished = a.take();
+        }
+        format!("c14.sender {cap} {ws} {rs} {}", ops.join(","))
+    }
+
+    fn permutations(n: usize) -> Vec<Vec<usize>> {
+        fn go(k: usize, cur: &mut Vec<usize>, out: &mut Vec<Vec<usize>>) {
+            if k == cur.len() {
+                out.push(cur.clone());
+                return;
+            }
+            for j in k..cur.len() {
+                cur.swap(k, j);
+                go(k + 1, cur, out);
+                cur.swap(k, j);
+            }
+        }
+        let mut out = vec![];
+        go(0, &mut (0..n).collect(), &mut out);
+        out
+    }
+
+    pub fn generate(rng: &mut Rng, thorough: bool) -> Vec<String> {
+        let mut out = vec![];
+        // constructor boundaries
+        for (c, w, r) in [(0, 1, 1), (1, 0, 1), (1, 1, 0), (4, 3, 3), (6, 2, 3), (1, 1, 1), (4, 2, 8)] {
+            out.push(format!("c14.sender {c} {w} {r} -"));
+        }
+        // hand-written boundaries: reader before any data; close on an empty sender; duplicate
+        // index; send after close; close twice; wrong message size; re-poll after Ready
+        for ops in [
+            "t99,t99,c50.0,t99,t99",
+            "t99,s10.0.0102,t99,s11.1.0304,t99,c50.2,t99",
+            "s10.0.0102,s10.0.0102",
+            "s10.0.0102,s12.0.0304",
+            "c50.0,s10.1.0102",
+            "c50.0,c51.1",
+            "c50.1,c51.1,s10.0.0102,c50.1,c51.1",
+            "s10.0.010203",
+            "s10.0.01",
+            "s11.1.01,s10.0.0102,s11.1.01",
+            "s11.1.0304,s12.1.0304,s10.0.0102",
+            "s10.0.0102,s11.1.0304,s12.2.0506,t98,t99,s12.2.0506,t99,t98",
+            "s12.2.0506,s11.1.0304,c50.3,s10.0.0102,s11.1.0304,s12.2.0506,t99,s12.2.0506,c50.3,t99,t99,t99",
+            "s11.1.0304,c50.1,s10.0.0102,c50.1,t99,s11.1.0304",
+        ] {
+            out.push(format!("c14.sender 4 2 2 {ops}"));
+            out.push(format!("c14.sender 4 2 4 {ops}"));
+            out.push(format!("c14.sender 8 2 4 {ops}"));
+        }
+        // all first-poll permutations of n writers + closer
+        let cfgs: &[(usize, usize, usize)] = &[(2, 1, 1), (2, 1, 2), (4, 2, 2), (4, 2, 4), (6, 2, 4), (8, 2, 4), (3, 3, 3), (16, 4, 8)];
+        let max_n = if thorough { 6 } else { 5 };
+        for n in 0..=max_n {
+            let perms = permutations(n + 1);
+            for (pi, perm) in perms.iter().enumerate() {
+                for (ci, &(c, w, r)) in cfgs.iter().enumerate() {
+                    // thin out the larger n in the quick tier (every permutation still appears with some cfg)
+                    if !thorough && n >= 4 && (pi + ci) % (if n == 4 { 2 } else { 8 }) != 0 {
+                        continue;
+                    }
+                    let every = [0usize, 1, 2, 3][(pi + ci) % 4];
+                    out.push(schedule(c, w, r, n, perm, every, (pi / 4 + ci) % 2 == 0));
+                }
+            }
+        }
+        if thorough {
+            // n = 6: all 7! orders on two configurations
+            for (pi, perm) in permutations(7).iter().enumerate() {
+                out.push(schedule(4, 2, 2, 6, perm, pi % 4, pi % 2 == 0));
+                out.push(schedule(6, 1, 3, 6, perm, (pi + 1) % 4, pi % 2 == 1));
+            }
+        } else {
+            let perms = permutations(7);
+            for k in 0..400 {
+                let perm = &perms[rng.usize_below(perms.len())];
+                let &(c, w, r) = rng.pick(cfgs);
+                out.push(schedule(c, w, r, 6, perm, k % 4, rng.bool()));
+            }
+        }
+        // random schedules (with spurious re-polls and occasional misuse)
+        let nrand = if thorough { 20_000 } else { 2_000 };
+        for _ in 0..nrand {
+            let ws = *rng.pick(&[1usize, 1, 2, 3, 4, 8]);
+            let cap = ws * (1 + rng.usize_below(6));
+            let rs = ws * (1 + rng.usize_below(cap / ws));
+            let n = 1 + rng.usize_below(6);
+            let mut a = Abs { cap, ws, rs, next: 0, len: 0, closed: false };
+            let mut ops = vec![];
+            let mut done = vec![false; n + 1];
+            let mut finished = false;
+            let misuse = rng.below(10) == 0;
+            let reader_p = *rng.pick(&[10u64, 25, 50]);
+            let mut steps = 0;
+            while (!finished || done.iter().any(|d| !d)) && steps < 40 * (n + 2) {
+                steps += 1;
+                if rng.below(100) < reader_p {
+                    ops.push(format!("t{}", if rng.below(16) == 0 { 98 } else { 99 }));
+                    finished = a.take();
+                    continue;
+                }
+                let cand: Vec<usize> = (0..=n).filter(|&p| !done[p]).collect();
+                if cand.is_empty() {
+                    ops.push("t99".into());
+                    finished = a.take();
+                    continue;
+                }
+                // bias towards the task whose turn it is, so schedules make progress
+                let p = if rng.below(3) == 0 && !done[a.next.min(n)] { a.next.min(n) } else { *rng.pick(&cand) };
+                if misuse && rng.below(12) == 0 {
+                    // misuse: wrong size / finished task polled again / second task for the same index
+                    match rng.below(3) {
+                        0 => {
+                            let sz = if ws == 8 { 7 } else { ws + 1 };
+                            ops.push(format!("s{}.{}.{}", 10 + p.min(n - 1), p.min(n - 1), msg_for(p, sz)));
+                            if a.send(p.min(n - 1), sz) == Pred::Panic {
+                                break;
+                            }
+                        }
+                        1 => {
+                            let q = rng.usize_below(n);
+                            ops.push(format!("s{}.{}.{}", 30 + q, q, msg_for(q, ws)));
+                            let r = a.send(q, ws);
+                            if r == Pred::Panic {
+                                break;
+                            }
+                            if r == Pred::Ready {
+                                done[q] = true;
+                            }
+                        }
+                        _ => {
+                            let q = rng.usize_below(n + 1);
+                            ops.push(format!("c51.{q}"));
+                            let r = a.close(q);
+                            if r == Pred::Panic {
+                                break;
+                            }
+                            if r == Pred::Ready && q == n {
+                                done[n] = true;
+                            }
+                        }
+                    }
+                    continue;
+                }
+                let r = poll_task(&mut a, &mut ops, if p == n { None } else { Some(p) }, n);
+                if r == Pred::Panic {
+                    break;
+                }
+                done[p] = r == Pred::Ready;
+            }
+            out.push(format!("c14.sender {cap} {ws} {rs} {}", ops.join(",")));
+        }
+        // indices crossing the shard boundaries (64-wide blocks, 8 shards, wrap at 512)
+        let far = if thorough { 1100 } else { 530 };
+        for (cap, rs, desc) in [(4usize, 2usize, false), (8, 8, true), (3, 1, false)] {
+            let parked: Vec<usize> = vec![1, 2, 62, 63, 64, 65, 127, 128, 129, 191, 192, 255, 256, 320, 448, 511, 512, 513, 520, 575, 576, 1023, 1024, 1025]
+                .into_iter()
+                .filter(|&x| x < far)
+                .collect();
+            let mut a = Abs { cap, ws: 1, rs, next: 0, len: 0, closed: false };
+            let mut ops = vec![];
+            let mut order = parked.clone();
+            if desc {
+                order.reverse();
+            }
+            for &i in &order {
+                ops.push(format!("s{}.{}.{}", 2000 + i, i, msg_for(i, 1)));
+                a.send(i, 1);
+            }
+            ops.push(format!("c5000.{far}"));
+            a.close(far);
+            let mut i = 0;
+            while i < far {
+                let id = if parked.contains(&i) { 2000 + i } else { 7 };
+                ops.push(format!("s{id}.{i}.{}", msg_for(i, 1)));
+                match a.send(i, 1) {
+                    Pred::Ready => i += 1,
+                    _ => {
+                        ops.push("t99".into());
+                        a.take();
+                    }
+                }
+            }
+            ops.push(format!("c5000.{far}"));
+            a.close(far);
+            for _ in 0..(cap + 2) {
+                ops.push("t99".into());
+            }
+            out.push(format!("c14.sender {cap} 1 {rs} {}", ops.join(",")));
+        }
+        out
+    }
+
+    #[test]
+    fn verif_c14_sender() {
+        run_suite("c14_sender", generate, exec);
+    }
+}
